@@ -26,6 +26,13 @@ func C02(run *core.Run) {
 	// forks across an epoch end, followed by the reward update computed by the follower
 	syncCheckP(run, 4, 15, 2, every*2, syncOpts{label: "pass3(forks across an epoch end) ", warmViews: true}, 30)
 	c02Walk(run)
+	// a producer that went through a reorganisation keeps producing: a fresh node must accept what it builds (reorg.go)
+	n := 3
+	if run.Thorough() {
+		n = 12
+	}
+	rr := reorgRuns(run, "C02", n)
+	run.Traces += int64(len(rr))
 	run.Finish()
 }
 
@@ -47,7 +54,15 @@ func c02Walk(run *core.Run) {
 	if run.Thorough() {
 		n = 400
 	}
-	if err := w.Run(n); err != nil {
+	// a third of the way in the network falls silent across an epoch end (the last ticks of an epoch without a momentum)
+	if err := w.Run(n / 3); err != nil {
+		core.Fatal("C02 walk: %v", err)
+	}
+	if err := p.Produce(walk.EpochMomentums - int(p.Height())%walk.EpochMomentums + 7); err != nil {
+		core.Fatal("C02 walk (silence): %v", err)
+	}
+	w.Stalls = true
+	if err := w.Run(n - n/3); err != nil {
 		core.Fatal("C02 walk: %v", err)
 	}
 	w.Drain(40)
@@ -73,14 +88,17 @@ func c02Walk(run *core.Run) {
 		gossip  bool
 		overlap int
 		restart int // restart after this many momentums (0 = never)
+		queries bool // read-only ledger and consensus queries between the deliveries
 	}
 	scheds := []sched{
-		{"one batch", func(int) int { return len(all) }, false, 0, 0},
-		{"batches of 7", func(int) int { return 7 }, false, 0, 0},
-		{"one by one, account blocks gossiped first", func(int) int { return 1 }, true, 0, 0},
-		{"batches of 13, restart in the middle", func(int) int { return 13 }, false, 0, len(all) / 2},
-		{"batches of 10 overlapping by 3", func(int) int { return 10 }, false, 3, 0},
-		{"growing batches 1,2,3,.. gossip first", func(i int) int { return i + 1 }, true, 0, 0},
+		{"one batch", func(int) int { return len(all) }, false, 0, 0, false},
+		{"batches of 7", func(int) int { return 7 }, false, 0, 0, false},
+		{"one by one, account blocks gossiped first", func(int) int { return 1 }, true, 0, 0, false},
+		{"batches of 13, restart in the middle", func(int) int { return 13 }, false, 0, len(all) / 2, false},
+		{"batches of 10 overlapping by 3", func(int) int { return 10 }, false, 3, 0, false},
+		{"growing batches 1,2,3,.. gossip first", func(i int) int { return i + 1 }, true, 0, 0, false},
+		{"one by one, queries between the deliveries", func(int) int { return 1 }, false, 0, 0, true},
+		{"batches of 5, queries between the deliveries, restart in the middle", func(int) int { return 5 }, false, 0, len(all) / 2, true},
 	}
 	var blocks int
 	for _, dm := range all {
@@ -109,6 +127,9 @@ func c02Walk(run *core.Run) {
 			var batch = make([]*nomDM, 0)
 			_ = batch
 			wire := wireAll(all[from:to])
+			if sc.queries {
+				readOnlyQueries(f)
+			}
 			if sc.gossip {
 				for _, dm := range wire {
 					for _, b := range dm.AccountBlocks {
@@ -151,5 +172,31 @@ func c02Walk(run *core.Run) {
 			run.Traces++
 		}
 		f.Stop()
+	}
+}
+
+// readOnlyQueries asks a node what an RPC client or a dashboard asks: nothing here may change what the node accepts next.
+func readOnlyQueries(f *node.Node) {
+	defer func() { recover() }()
+	fr := f.Frontier()
+	reader := f.Cons.FrontierPillarReader()
+	tick := reader.EpochTicker().ToTick(*fr.Timestamp)
+	for e := uint64(0); e <= tick+1; e++ {
+		if e+2 < tick {
+			continue
+		}
+		reader.EpochStats(e)
+		reader.GetPillarDelegationsByEpoch(e)
+	}
+	reader.GetPillarWeights()
+	if fr.Height > 3 {
+		old := f.MomentumAt(fr.Height - 2)
+		fixed := f.Cons.FixedPillarReader(old.Identifier())
+		fixed.EpochStats(tick)
+		fixed.GetPillarWeights()
+		f.DumpAt(old.Identifier())
+	}
+	for i := 1; i <= 3; i++ {
+		f.Cons.GetMomentumProducer(fr.Timestamp.Add(time.Duration(10*i) * time.Second))
 	}
 }
